@@ -470,6 +470,7 @@ def sec_batch_graph(rec, patches=None):
     from .c03 import sec_batch
 
     sec_batch(rec, ids=(0, 1, 0, 1), patches=patches)
+    sec_batch(rec, ids=(1, 0), patches=patches)
 
 
 def sec_conformance(rec):
